@@ -2,14 +2,14 @@
 
 PROP = dict(
     module="JadeModel.Props.C07", ns="Jade.C07",
-    required=["C07_blocked_looked_at_or_doomed", "C07_round_feeds_status_update_partial", "C07_blocked_not_submitted_partial", "C07_rollback_hands_blocked_job_on", "C07_batches_wellformed", "C07_batch_size_le", "C07_batch_time_le", "C07_no_blocked_without_tryadd",
+    required=["C07_blocked_not_submitted", "C07_round_feeds_status_update", "C07_blocked_looked_at_or_doomed", "C07_round_feeds_status_update_partial", "C07_blocked_not_submitted_partial", "C07_rollback_hands_blocked_job_on", "C07_batches_wellformed", "C07_batch_size_le", "C07_batch_time_le", "C07_no_blocked_without_tryadd",
               "C07_batches_disjoint", "C07_dryRun_same_batches", "C07_fuel_suffices", "C07_unvalidated_estimate_diverges"],
     suites=["batch", "slurm", "system"],
     level_text="Machine-checked Lean theorems over _submit_batches/_make_batch/_BatchJobs for all candidate lists, all "
                "parameter sets, queue depths and sbatch outcome sequences (unbounded, by a loop invariant of the cursor "
                "algorithm); every decision of the loops is a predicate regenerated from hpc_submitter.py on each run; the "
                "control-flow skeleton is tied by differential testing of the real submit phase (real Cluster, JobQueue, "
-               "files, sbatch faked at the subprocess boundary). The round's two hand-overs to the status update never share a job (size-based batching, the default: C07_blocked_not_submitted_partial, cursor invariant BlkIdx through _make_batch and the _submit_batches loop; with time-based batching the cursor can roll back over a job in the blocked dictionary - C07_rollback_hands_blocked_job_on - and that case is decided by the batch suite, which persists every round's output through the real update_job_status).",
+               "files, sbatch faked at the subprocess boundary). The round's two hand-overs to the status update never share a job, for ANY batching mode (C07_blocked_not_submitted, C07_round_feeds_status_update; Proofs/BatchBlocked*.lean; first proved for size-based batching: C07_blocked_not_submitted_partial, cursor invariant BlkIdx through _make_batch and the _submit_batches loop; with time-based batching the cursor can roll back over a job in the blocked dictionary - C07_rollback_hands_blocked_job_on - and that case is decided by the batch suite, which persists every round's output through the real update_job_status).",
     level_note="Trusted: Lean kernel (+3 standard axioms), tools/extract.py, batch+slurm correspondence suites. Assumes unique "
                "job names (JobContainerByName) and, for termination, validated estimates (run_checks); the hypothesis-free "
                "divergence is proved as a witness theorem. Group HPC parameters/run options on the scripts: C18 theorems + "
